@@ -159,12 +159,17 @@ def sniffers(ctx):
              ('<meta http-equiv="Content-Type" content="text/html">', ('text/html', None)),
              ('<meta name="x" content="text/html;charset=a">', (None, None)), ('<p>no meta</p>', (None, None)),
              ('<meta http-equiv="Content-Type" content="text/html;charset=first"><meta http-equiv="Content-Type" content="text/html;charset=second">', ('text/html', 'first'))]
-    for doc, want in metas:
+    # every meta document also behind a long preamble (comments, a title, white space, other head elements): where the element stands in the
+    # document makes no difference - the statement speaks of the first content-type meta element, not of the first so many characters
+    preambles = ['', '<!DOCTYPE html>\n<html><head><title>' + 't' * 600 + '</title>\n', '<!-- ' + 'c' * 1100 + ' -->', ' ' * 1024, '\n' * 1500 + '<html><head><link rel="x" href="' + 'u' * 300 + '">',
+                 '<html><head><script>/* ' + 's' * 4100 + ' */</script>']
+    for (doc0, want), pre in itertools.product(metas, preambles):
+        doc = pre + doc0
         n += 1
         got = E.getMetaInfo(doc)
-        kinds.add(('meta', want[1] is None))
+        kinds.add(('meta', want[1] is None, len(pre) > 1000))
         if got != want:
-            ctx.violation('bounded: getMetaInfo returns (media type, lower-case charset) of the first content-type meta element', f'{doc!r}: {got!r} != {want!r}', True, {'document': doc})
+            ctx.violation('bounded: getMetaInfo returns (media type, lower-case charset) of the first content-type meta element', f'{doc[:40]!r}...{doc0!r} (element at offset {len(pre)}): {got!r} != {want!r}', True, {'document': doc})
     # encodingByMediaType over the class table
     from bounded.c20 import MEDIA as _M
     for media, tt in _M:
@@ -173,5 +178,5 @@ def sniffers(ctx):
         if got != default_encoding(tt if media is not None else OTHER):
             ctx.violation('bounded: encodingByMediaType = documented default of the media-type class', f'{media!r}: {got!r}', True, {'media_type': media})
     ctx.bounded.append({'name': 'sniffers', 'evaluations': n, 'distinct_nontrivial': len(kinds),
-                        'rule': 'detectXMLEncoding on 20 heads x 3 tails x 4 stream positions x includeDefault against a native oracle; getMetaInfo and encodingByMediaType on fixed tables',
+                        'rule': 'detectXMLEncoding on 20 heads x 3 tails x 4 stream positions x includeDefault against a native oracle; getMetaInfo on 6 meta documents x 6 preambles of up to 4 100 characters, encodingByMediaType on the class table',
                         'samples': samples, 'bound': 'fixed document list'})
